@@ -72,6 +72,7 @@ def parseOp (s : String) : Option Op :=
         | _ => none) l
       pure (.appendBondObjs ps)
   | ["vlocal"] => some .viewLocal
+  | ["setq", ps] => do pure (.chargeWrite (← parseList? (·.toNat?) ps))
   | ["mkview", l] => do pure (.mkView (← parseList? parseRef? l))
   | ["vread", l] => do pure (.viewRead (← parseList? parseAtomId? l))
   | ["vwrite", l, ps] => do pure (.viewWrite (← parseList? parseAtomId? l) (← parseList? (·.toNat?) ps))
